@@ -65,8 +65,8 @@ Depth(m) == Len(m.stack)
 Top(m) == m.stack[Len(m.stack)]
 Push(m, f) == [m EXCEPT !.stack = Append(@, f)]
 Pop(m) == [m EXCEPT !.stack = SubSeq(@, 1, Len(@) - 1)]
-OpFrame(op, o, x0, c, ac) == [k |-> "op", op |-> op, o |-> o, c |-> c, ac |-> ac, x0 |-> x0, nested |-> 0, traced |-> FALSE, ncb |-> 0, fault |-> FALSE, aux |-> 0]
-CbFrame(cb, o) == [k |-> "cb", op |-> cb, o |-> o, c |-> <<>>, ac |-> <<>>, x0 |-> 0, nested |-> 0, traced |-> FALSE, ncb |-> 0, fault |-> FALSE, aux |-> 0]
+OpFrame(op, o, x0, c, ac) == [k |-> "op", op |-> op, o |-> o, c |-> c, ac |-> ac, x0 |-> x0, nested |-> 0, traced |-> FALSE, ncb |-> 0, fault |-> FALSE, aux |-> 0, ntr |-> 0]
+CbFrame(cb, o) == [k |-> "cb", op |-> cb, o |-> o, c |-> <<>>, ac |-> <<>>, x0 |-> 0, nested |-> 0, traced |-> FALSE, ncb |-> 0, fault |-> FALSE, aux |-> 0, ntr |-> 0]
 
 CbOpen(m, kinds) == \E i \in DOMAIN m.stack : m.stack[i].k = "cb" /\ m.stack[i].op \in kinds
 \* a collection is running: some open op frame saw a trace callback directly inside it
@@ -434,8 +434,11 @@ OnCb(m, e) ==
         m2 == Flag(m1, ~e.ok \/ ob.vs # "live" \/ ob.bs # "live", "C01", "collector traced a dropped or freed object " \o ToString(o))
         m3 == Flag(m2, Depth(m) > 0 /\ Top(m).k = "op" /\ CollRunningBelow(m, Len(m.stack) - 1), "C12", "a collection started while another one was in progress")
         \* the op frame directly enclosing a trace callback hosts a collection
-        m4 == IF Depth(m3) > 0 /\ Top(m3).k = "op" THEN SetTopField(m3, "traced", TRUE) ELSE m3
-    IN Push(m4, CbFrame(k, o))
+        m4 == IF Depth(m3) > 0 /\ Top(m3).k = "op" THEN SetTopField(SetTopField(m3, "traced", TRUE), "ntr", Top(m3).ntr + 1) ELSE m3
+        \* a collection makes at most 10 passes, each traces an object at most twice (counting and root phase)
+        bound == 20 * (Cardinality(Ids(m)) + 1)
+        m5 == Flag(m4, Depth(m4) > 0 /\ Top(m4).k = "op" /\ Top(m4).ntr > bound, "C06", "one collection made more than " \o ToString(bound) \o " trace calls: it does not terminate within the pass bound")
+    IN Push(m5, CbFrame(k, o))
   ELSE IF k = "finalize" THEN
     LET m1 == Flag(m0, ~m.cfg.fin, "C05", "finalize called with finalization disabled")
         m2 == Flag(m1, e.it, "C12", "is_tracing() is true inside a finalizer")
